@@ -28,6 +28,10 @@ enum Wait {
     Recv(ProbePtr, String),
     Join,
     HJoin(usize),
+    /// until the target actor is blocked (parked and not enabled) or finished
+    ActorBlocked(usize),
+    /// until the I/O thread has nothing left to do (idle at its gate) or is gone
+    IoQuiet,
 }
 
 enum Status {
@@ -219,6 +223,7 @@ struct St {
     points: Vec<PointRec>,
     last_ran: Option<usize>,
     io_idle: bool,
+    io_held: bool,
     activity_since_idle: bool,
     sleepers: Vec<u64>,
     io_gate_time: u64,
@@ -339,7 +344,7 @@ impl St {
         match &a.status {
             Status::Parked(w) => match w {
                 Wait::Start => true,
-                Wait::Gate => !self.io_idle,
+                Wait::Gate => !self.io_idle && !self.io_held,
                 Wait::Send { serial, kind } => {
                     if self.io_gone() {
                         return true;
@@ -355,6 +360,13 @@ impl St {
                 Wait::Recv(p, _) => unsafe { (*p.0)() },
                 Wait::Join => self.io_gone() || !self.io_exists(),
                 Wait::HJoin(t) => matches!(self.actors[*t].status, Status::Finished),
+                Wait::ActorBlocked(t) => match &self.actors[*t].status {
+                    Status::Finished => true,
+                    Status::Parked(Wait::Start) => false,
+                    Status::Parked(_) => !self.actor_enabled(*t),
+                    Status::Running => false,
+                },
+                Wait::IoQuiet => !self.io_exists() || self.io_gone() || (self.io_idle && !self.activity_since_idle && matches!(self.actors[IO].status, Status::Parked(Wait::Gate))),
             },
             _ => false,
         }
@@ -487,6 +499,8 @@ impl St {
                     Status::Parked(Wait::Recv(_, what)) => format!("recv:{}", what),
                     Status::Parked(Wait::Join) => "join-io".to_string(),
                     Status::Parked(Wait::HJoin(t)) => format!("join:{}", self.actors[*t].name),
+                    Status::Parked(Wait::ActorBlocked(t)) => format!("until-blocked:{}", self.actors[*t].name),
+                    Status::Parked(Wait::IoQuiet) => "until-io-quiet".to_string(),
                     _ => "?".to_string(),
                 };
                 format!("{}:{}", a.name, w)
@@ -565,7 +579,7 @@ impl St {
                 return;
             }
             let mut choices = self.choices();
-            if choices.is_empty() && self.io_idle && self.activity_since_idle && matches!(self.actors[IO].status, Status::Parked(Wait::Gate)) {
+            if choices.is_empty() && self.io_idle && !self.io_held && self.activity_since_idle && matches!(self.actors[IO].status, Status::Parked(Wait::Gate)) {
                 // a client ran since the last empty poll (it may have dropped a sender):
                 // let the I/O thread poll once more before concluding anything
                 self.io_idle = false;
@@ -626,6 +640,7 @@ impl World {
                 points: Vec::new(),
                 last_ran: None,
                 io_idle: false,
+                io_held: false,
                 activity_since_idle: false,
                 sleepers: Vec::new(),
                 io_gate_time: 0,
@@ -768,6 +783,35 @@ impl World {
         }
         let ready = move || verif::clock::now_ns() >= t_ns;
         self.wait_until(&format!("sleep{}", t_ns / 1_000_000), &ready);
+    }
+
+    /// Batch driver: while held the I/O thread is never scheduled, so that events pile up
+    /// for a single poll.
+    pub fn hold_io(&self, held: bool) {
+        let mut st = self.lock();
+        st.io_held = held;
+    }
+
+    pub fn wait_actor_blocked(&self, target: usize) {
+        self.park(Self::me(), Wait::ActorBlocked(target));
+    }
+
+    pub fn wait_io_quiet(&self) {
+        self.park(Self::me(), Wait::IoQuiet);
+    }
+
+    /// Batch driver: let the broker perform the push with this label now and make its
+    /// bytes readable at once. Returns false if no such push is currently offered.
+    pub fn force_push(&self, label: &str) -> bool {
+        let mut st = self.lock();
+        let mut out = BrokerOut::default();
+        if !st.broker.force(label, &mut out) {
+            return false;
+        }
+        st.absorb(out);
+        let n = st.tr.pending.len();
+        st.apply_env(EnvAction::Deliver(n));
+        true
     }
 
     pub fn wait_actor(&self, target: usize) {
